@@ -2,33 +2,13 @@
     by induction over the schedule (invariants of the interleaving semantics). *)
 From Coq Require Import List Arith Bool Lia.
 Import ListNotations.
-Require Import Celma.Conc.Interleave Celma.Conc.Singleton.
-
-Lemma set_nth_cases {A} : forall (l : list A) k x j y,
-  nth_error (set_nth k x l) j = Some y ->
-  (j = k /\ y = x) \/ (j <> k /\ nth_error l j = Some y).
-Proof.
-  intros l k x j y H. destruct (Nat.eq_dec j k) as [->|N].
-  - left. split; auto.
-    destruct (nth_error l k) eqn:E.
-    + erewrite nth_error_set_nth_eq in H by eauto. congruence.
-    + exfalso. apply nth_error_None in E.
-      assert (nth_error (set_nth k x l) k = None).
-      { apply nth_error_None. rewrite length_set_nth. auto. }
-      congruence.
-  - right. split; auto. rewrite nth_error_set_nth_ne in H; auto.
-Qed.
-
-Lemma nth_error_repeat {A} : forall n (x y : A) i, nth_error (repeat x n) i = Some y -> y = x.
-Proof.
-  induction n; destruct i; simpl; intros; try discriminate; try congruence; eauto.
-Qed.
+Require Import Celma.Conc.Interleave Celma.Conc.InterleaveFacts Celma.Conc.Singleton.
 
 Section SG.
   Variable p : sg_proto.
   Notation st := (state sg_local).
   Notation stepp := (step sg_local (sg_next p) (sg_cont p)).
-  Notation pend := (pending sg_local (sg_next p) (sg_cont p)).
+  Notation pend := (pending sg_local (sg_next p)).
 
   Definition lockedb (c : sg_pc) : bool :=
     match c with PSecond | PNew | PStore | PRetL | PUnlock => true | _ => false end.
@@ -92,7 +72,7 @@ Section SG.
       + unfold TL, sg_cont. rewrite Epc, Ef.
         destruct (mem s PTR =? 0); simpl; [repeat split; intros; try discriminate|].
         destruct (sg_ret p) as [|m' lk]; simpl; repeat split; intros; try discriminate.
-        exists m', lk. split; auto. left. congruence.
+        exists m', lk. split; auto.
       + tl_other Hs Hj.
     - (* PLock *)
       inversion Ha; subst a; clear Ha. simpl in *.
@@ -182,8 +162,295 @@ Section SG.
     - inversion Ha; subst. unfold ret_mode.
       destruct (Rt eq_refl) as (m & lk & Er & D). rewrite Er in *.
       destruct (sg_first p) as [m'|]; [|destruct D as [D|D]; [congruence|subst lk]];
-        repeat (apply andb_true_iff in Hrace; destruct Hrace as [Hrace ?]);
-        destruct m; destruct (sg_store p); simpl in *; try discriminate; auto.
-    - inversion Ha.
+        destruct (sg_store p);
+        repeat match goal with x : mode |- _ => destruct x end; simpl in *; try discriminate; auto.
+  Qed.
+
+  Lemma next_write : forall i l m lo v, sg_next p i l = Some (AWrite m lo v) -> m = sg_store p.
+  Proof.
+    unfold sg_next. intros i l m lo v H.
+    destruct (pc l); try destruct (sg_first p); inversion H; auto.
+  Qed.
+
+  Theorem sg_race_free : forall n sched, ~ race_state sg_local (sg_next p) (sg_run p n sched).
+  Proof.
+    intros n sched (i & j & a & b & Nij & Pi & Pj & C).
+    pose proof (InvL_run n sched) as Hs.
+    apply pending_next in Pi. apply pending_next in Pj.
+    destruct Pi as (li & Hli & Hai). destruct Pj as (lj & Hlj & Haj).
+    destruct (lockedb (pc li)) eqn:Li; destruct (lockedb (pc lj)) eqn:Lj.
+    - apply Nij. eapply InvL_exclusive; eauto.
+    - pose proof (unlocked_access_atomic _ _ _ _ Hs Hlj Haj Lj) as U.
+      destruct a, b; simpl in C; try discriminate; try contradiction.
+      destruct U as [-> St]. apply next_write in Hai. rewrite St in Hai. subst m.
+      simpl in C. rewrite andb_false_r in C. discriminate.
+    - pose proof (unlocked_access_atomic _ _ _ _ Hs Hli Hai Li) as U.
+      destruct a, b; simpl in C; try discriminate; try contradiction.
+      destruct U as [-> St]. apply next_write in Haj. rewrite St in Haj. subst m0.
+      simpl in C. rewrite andb_false_r in C. discriminate.
+    - pose proof (unlocked_access_atomic _ _ _ _ Hs Hli Hai Li) as U.
+      pose proof (unlocked_access_atomic _ _ _ _ Hs Hlj Haj Lj) as V.
+      destruct a, b; simpl in C; try discriminate; try contradiction.
   Qed.
 End SG.
+
+(** ** exactly one construction, every caller receives that object *)
+Section ONCE.
+  Variable p : sg_proto.
+  Hypothesis Honce : sg_once_ok p = true.
+  Notation st := (state sg_local).
+  Notation stepp := (step sg_local (sg_next p) (sg_cont p)).
+
+  Lemma after_lock_eq : after_lock p = PSecond.
+  Proof. unfold after_lock. unfold sg_once_ok in Honce. destruct (sg_second p); auto. discriminate. Qed.
+
+  (** per thread, in terms of the pointer value mp and the number of constructions nc *)
+  Definition TO (mp : val) (nc : nat) (l : sg_local) : Prop :=
+    (pc l = PNew -> mp = 0 /\ nc = 0) /\
+    (pc l = PStore -> mp = 0 /\ nc = 1 /\ reg l = 1) /\
+    (pc l = PRetL \/ pc l = PUnlock \/ pc l = PRet -> mp = 1 /\ reg l = 1) /\
+    (forall v, res l = Some v -> v = 1 /\ mp = 1).
+
+  Definition G (s : st) : Prop :=
+    nctor s <= 1 /\ mem s PTR <= 1 /\ (mem s PTR = 1 -> nctor s = 1) /\
+    (nctor s = 1 -> mem s PTR = 1 \/ exists j lj, nth_error (thr s) j = Some lj /\ pc lj = PStore).
+
+  Definition InvO (s : st) : Prop :=
+    InvL p s /\ G s /\ forall i l, nth_error (thr s) i = Some l -> TO (mem s PTR) (nctor s) l.
+
+  Lemma TO_unlocked_nc : forall mp nc nc' l, lockedb (pc l) = false -> TO mp nc l -> TO mp nc' l.
+  Proof.
+    intros mp nc nc' l U (A & B & C & D). unfold TO.
+    split; [intros E; rewrite E in U; discriminate|].
+    split; [intros E; rewrite E in U; discriminate|].
+    split; auto.
+  Qed.
+
+  Lemma TO_unlocked_store : forall nc l, lockedb (pc l) = false -> TO 0 nc l -> TO 1 nc l.
+  Proof.
+    intros nc l U (A & B & C & D). unfold TO.
+    split; [intros E; rewrite E in U; discriminate|].
+    split; [intros E; rewrite E in U; discriminate|].
+    split.
+    - intros E. split; auto. apply C; auto.
+    - intros v E. split; auto. eapply D; eauto.
+  Qed.
+
+  Lemma witness_frame : forall (thr0 : list sg_local) i l l',
+    nth_error thr0 i = Some l -> pc l <> PStore ->
+    (exists j lj, nth_error thr0 j = Some lj /\ pc lj = PStore) ->
+    exists j lj, nth_error (set_nth i l' thr0) j = Some lj /\ pc lj = PStore.
+  Proof.
+    intros thr0 i l l' Hl N (j & lj & Hj & E). exists j, lj. split; auto.
+    rewrite nth_error_set_nth_ne; auto. intros ->. congruence.
+  Qed.
+
+  Lemma InvO_init : forall n, InvO (sg_init p n).
+  Proof.
+    intros n. split; [apply InvL_init|]. split.
+    - unfold G; simpl. repeat split; auto; intros; discriminate.
+    - intros i l H. simpl in H. apply nth_error_repeat in H. subst l. simpl.
+      unfold TO, sg_start; simpl. destruct (sg_first p); simpl; repeat split; intros; try discriminate;
+        repeat match goal with H : _ \/ _ |- _ => destruct H end; discriminate.
+  Qed.
+
+  Ltac vac := let E := fresh "E" in intros E; simpl in E; try discriminate;
+              repeat (destruct E as [E|E]; try discriminate).
+
+  Lemma frame_same : forall (s : st) i l l' o lv,
+    G s -> (forall j lj, nth_error (thr s) j = Some lj -> TO (mem s PTR) (nctor s) lj) ->
+    nth_error (thr s) i = Some l -> pc l <> PStore ->
+    TO (mem s PTR) (nctor s) l' ->
+    G (mkState (mem s) o (nctor s) lv (set_nth i l' (thr s))) /\
+    forall j lj, nth_error (set_nth i l' (thr s)) j = Some lj -> TO (mem s PTR) (nctor s) lj.
+  Proof.
+    intros s i l l' o lv (G1 & G2 & G3 & G4) HT Hl N Tl'. split.
+    - unfold G; simpl. repeat split; auto.
+      intros E. destruct (G4 E) as [A|A]; auto. right. eapply witness_frame; eauto.
+    - intros j lj Hj. apply set_nth_cases in Hj. destruct Hj as [[-> ->]|[Nj Hj]]; eauto.
+  Qed.
+
+  Lemma InvO_step : forall s i s', InvO s -> stepp s i = Some s' -> InvO s'.
+  Proof.
+    intros s i s' (HL & HG & HT) Hst.
+    assert (HL' : InvL p s') by (eapply InvL_step; eauto).
+    split; auto.
+    apply step_inv in Hst. destruct Hst as (l & a & Hl & Ha & En & ->).
+    pose proof (HT _ _ Hl) as (T1 & T2 & T3 & T4).
+    pose proof (HL _ _ Hl) as (Lk & Fi & Rt).
+    pose proof HG as (G1 & G2 & G3 & G4).
+    unfold sg_next in Ha.
+    destruct (pc l) eqn:Epc; simpl in *.
+    - (* PFirst *)
+      destruct (sg_first p) as [m|] eqn:Ef; [|exfalso; apply Fi; auto].
+      inversion Ha; subst a; clear Ha. simpl.
+      eapply frame_same; eauto; try congruence.
+      unfold sg_cont. rewrite Epc, Ef.
+      destruct (mem s PTR =? 0) eqn:Ez.
+      + unfold TO; simpl. split; [vac|]. split; [vac|]. split; [vac|]. auto.
+      + apply Nat.eqb_neq in Ez. assert (mem s PTR = 1) by lia.
+        destruct (sg_ret p); unfold TO; simpl.
+        * split; [vac|]. split; [vac|]. split; [vac|]. intros v E. inversion E. split; congruence.
+        * split; [vac|]. split; [vac|]. split; auto.
+    - (* PLock *)
+      inversion Ha; subst a; clear Ha. simpl.
+      eapply frame_same; eauto; try congruence.
+      unfold sg_cont. rewrite Epc, after_lock_eq.
+      unfold TO; simpl. split; [vac|]. split; [vac|]. split; [vac|]. auto.
+    - (* PSecond *)
+      inversion Ha; subst a; clear Ha. simpl.
+      eapply frame_same; eauto; try congruence.
+      unfold sg_cont. rewrite Epc.
+      destruct (mem s PTR =? 0) eqn:Ez.
+      + apply Nat.eqb_eq in Ez.
+        unfold TO; simpl. split; [|split; [vac|split; [vac|auto]]].
+        intros _. split; auto.
+        assert (nctor s = 0 \/ nctor s = 1) as [Z|Z] by lia; auto.
+        exfalso. destruct (G4 Z) as [A|(j & lj & Hj & Ej)]; [lia|].
+        assert (i = j).
+        { eapply (InvL_exclusive p s i j l lj); eauto; [rewrite Epc|rewrite Ej]; auto. }
+        subst j. congruence.
+      + apply Nat.eqb_neq in Ez. assert (mem s PTR = 1) by lia.
+        destruct (after_create_cases p) as [E|E]; rewrite E; unfold TO; simpl;
+          (split; [vac|]; split; [vac|]; split; auto).
+    - (* PNew *)
+      inversion Ha; subst a; clear Ha. simpl.
+      destruct (T1 eq_refl) as [Mz Nz]. rewrite Nz.
+      split.
+      + unfold G; simpl. repeat split; auto; try lia.
+        intros _. right. exists i, (sg_cont p i l 1). split.
+        * eapply nth_error_set_nth_eq; eauto.
+        * unfold sg_cont. rewrite Epc. auto.
+      + intros j lj Hj. apply set_nth_cases in Hj. destruct Hj as [[-> ->]|[Nj Hj]].
+        * unfold sg_cont. rewrite Epc. unfold TO; simpl.
+          split; [vac|]. split; [auto|]. split; [vac|]. auto.
+        * pose proof (HT _ _ Hj) as Tj. rewrite Nz in Tj.
+          eapply TO_unlocked_nc; eauto.
+          destruct (lockedb (pc lj)) eqn:Lj; auto. exfalso. apply Nj.
+          eapply (InvL_exclusive p s j i lj l); eauto. rewrite Epc; auto.
+    - (* PStore *)
+      inversion Ha; subst a; clear Ha. simpl.
+      destruct (T2 eq_refl) as (Mz & N1 & R1). rewrite R1.
+      assert (Hm : upd (mem s) PTR 1 PTR = 1) by reflexivity.
+      split.
+      + unfold G; simpl. rewrite Hm. repeat split; auto.
+      + rewrite Hm. intros j lj Hj. apply set_nth_cases in Hj. destruct Hj as [[-> ->]|[Nj Hj]].
+        * unfold sg_cont. rewrite Epc.
+          destruct (after_create_cases p) as [E|E]; rewrite E; unfold TO; simpl;
+            (split; [vac|]; split; [vac|]; split; [auto|]);
+            intros v Ev; split; auto; eapply T4; eauto.
+        * pose proof (HT _ _ Hj) as Tj. rewrite Mz in Tj.
+          eapply TO_unlocked_store; eauto.
+          destruct (lockedb (pc lj)) eqn:Lj; auto. exfalso. apply Nj.
+          eapply (InvL_exclusive p s j i lj l); eauto. rewrite Epc; auto.
+    - (* PRetL *)
+      inversion Ha; subst a; clear Ha. simpl.
+      eapply frame_same; eauto; try congruence.
+      unfold sg_cont. rewrite Epc.
+      destruct T3 as [M1 R1]; auto.
+      unfold TO; simpl. split; [vac|]. split; [vac|]. split; auto.
+      intros v E. inversion E. split; congruence.
+    - (* PUnlock *)
+      inversion Ha; subst a; clear Ha. simpl.
+      eapply frame_same; eauto; try congruence.
+      unfold sg_cont. rewrite Epc.
+      destruct T3 as [M1 R1]; auto.
+      destruct (sg_ret p) as [|m [|]]; unfold TO; simpl;
+        (split; [vac|]; split; [vac|]; split; [try vac; auto|]); auto.
+      intros v E. inversion E. split; congruence.
+    - (* PRet *)
+      inversion Ha; subst a; clear Ha. simpl.
+      eapply frame_same; eauto; try congruence.
+      unfold sg_cont. rewrite Epc.
+      destruct T3 as [M1 R1]; auto.
+      unfold TO; simpl. split; [vac|]. split; [vac|]. split; [vac|].
+      intros v E. inversion E. split; congruence.
+    - discriminate.
+  Qed.
+
+  Lemma InvO_run : forall n sched, InvO (sg_run p n sched).
+  Proof.
+    intros. unfold sg_run. apply run_invariant with (I := InvO).
+    - intros. eapply InvO_step; eauto.
+    - apply InvO_init.
+  Qed.
+
+  (** a thread that has returned from instance() holds a result *)
+  Definition TR (l : sg_local) : Prop :=
+    (pc l = PDone -> res l <> None) /\
+    (pc l = PUnlock -> (exists m, sg_ret p = RetRead m true) -> res l <> None).
+  Definition InvR (s : st) : Prop := forall i l, nth_error (thr s) i = Some l -> TR l.
+
+  Lemma InvR_step : forall s i s', InvR s -> stepp s i = Some s' -> InvR s'.
+  Proof.
+    intros s i s' HR Hst. apply step_inv in Hst. destruct Hst as (l & a & Hl & Ha & En & ->).
+    pose proof (HR _ _ Hl) as (R1 & R2).
+    assert (K : forall v, TR (sg_cont p i l v)).
+    { intros v. unfold sg_cont, TR. destruct (pc l) eqn:Epc; simpl.
+      - destruct (sg_first p); [destruct (v =? 0); [|destruct (sg_ret p)]|rewrite after_lock_eq];
+          simpl; split; intros; try discriminate.
+      - rewrite after_lock_eq; simpl; split; intros; discriminate.
+      - destruct (v =? 0); simpl; [split; intros; discriminate|].
+        unfold after_create. destruct (sg_ret p) as [|m [|]]; simpl; split; intros; try discriminate.
+        + destruct H0 as [m' H0]. discriminate.
+        + destruct H0 as [m' H0]. discriminate.
+      - simpl; split; intros; discriminate.
+      - unfold after_create. destruct (sg_ret p) as [|m [|]]; simpl; split; intros; try discriminate.
+        + destruct H0 as [m' H0]. discriminate.
+        + destruct H0 as [m' H0]. discriminate.
+      - split; intros; discriminate.
+      - destruct (sg_ret p) as [|m [|]] eqn:Er; simpl; split; intros; try discriminate.
+        apply R2; eauto.
+      - split; intros; discriminate.
+      - split; auto. }
+    intros j lj Hj.
+    destruct (effect sg_local s i a) as [s1 v] eqn:Ee.
+    assert (thr s1 = thr s) by (destruct a; inversion Ee; auto).
+    simpl in Hj. rewrite H in Hj. apply set_nth_cases in Hj. destruct Hj as [[-> ->]|[Nj Hj]]; eauto.
+  Qed.
+
+  Lemma InvR_run : forall n sched, InvR (sg_run p n sched).
+  Proof.
+    intros. unfold sg_run. apply run_invariant with (I := InvR).
+    - intros. eapply InvR_step; eauto.
+    - intros i l H. simpl in H. apply nth_error_repeat in H. subst l.
+      unfold TR, sg_start; simpl. destruct (sg_first p); simpl; split; intros; discriminate.
+  Qed.
+
+  (** in every state of every schedule: at most one construction has been made; every thread
+      that has returned from instance() received object number 1, the pointer designates it
+      and exactly one construction has been made *)
+  Theorem sg_once : forall n sched,
+    nctor (sg_run p n sched) <= 1 /\
+    forall i l, nth_error (thr (sg_run p n sched)) i = Some l -> pc l = PDone ->
+      res l = Some 1 /\ nctor (sg_run p n sched) = 1 /\ mem (sg_run p n sched) PTR = 1.
+  Proof.
+    intros n sched. destruct (InvO_run n sched) as (_ & (G1 & G2 & G3 & G4) & HT).
+    split; auto. intros i l Hl Hd.
+    destruct (InvR_run n sched _ _ Hl) as [R _]. specialize (R Hd).
+    destruct (res l) as [v|] eqn:Er; [|congruence].
+    destruct (HT _ _ Hl) as (_ & _ & _ & T4). destruct (T4 _ Er) as [-> M]. auto.
+  Qed.
+End ONCE.
+
+(** ** the protocols that do not satisfy the premises: witnesses *)
+
+(** pinned source: thread 0 has passed both checks and constructed the object, its plain store
+    of the pointer is pending while thread 1 is about to make the unlocked plain first check *)
+Lemma sg_pinned_race :
+  race_state sg_local (sg_next sg_pinned) (sg_run sg_pinned 2 [0; 0; 0; 0]).
+Proof.
+  exists 0, 1, (AWrite Plain PTR 1), (ARead Plain PTR).
+  split; [discriminate|]. split; [reflexivity|]. split; reflexivity.
+Qed.
+
+(** without the check under the lock two threads that both passed the first check both construct *)
+Lemma sg_nosecond_twice :
+  nctor (sg_run sg_nosecond 2 [0; 1; 0; 0; 0; 0; 1; 1; 1; 1]) = 2.
+Proof. reflexivity. Qed.
+
+(** the theorems are not vacuous: a complete run of three threads *)
+Lemma sg_locked_complete :
+  map res (thr (sg_run sg_locked 3 [0; 1; 2; 0; 0; 0; 0; 0; 1; 1; 1; 1; 2; 2; 2; 2; 2])) =
+  [Some 1; Some 1; Some 1].
+Proof. reflexivity. Qed.
